@@ -568,16 +568,50 @@ def rule_gate(ctx):
             shim = c.methods["onWelcome"]
     ctx.require(shim is not None, "_SessionShim.onWelcome not found")
     ctx.analysed(shim)
-    ts = TermEval(p, shim, inline=lambda c, f: None).run()
-    rs = [o for o in ts.outcomes if o.kind == "return"]
-    msg = P(shim.params()[1])
-    auth = IDX(ATTR(P("self"), "_authenticators"), ATTR(msg, "authmethod"))
-    ref = ("m", auth, "on_welcome", (P("self"), ATTR(msg, "authextra")), ())
-    verdicts = [o for o in rs if o.term != C(None)]
-    ctx.ob("the session returns the verdict of the authenticator selected by the WELCOME's authmethod", len(verdicts) == 1 and verdicts[0].term == ref,
-           f"returns {[show(o.term)[:120] for o in verdicts]}", shim.loc())
-    unk = [o for o in ts.outcomes if o.kind == "raise" and any(c == ("exc", "KeyError") for c, _ in o.conds)]
-    ctx.ob("a WELCOME naming an authmethod the client did not configure raises (and is aborted)", bool(unk), "unknown authmethod accepted", shim.loc())
+    # cell-wise over (configured authenticators) x (authmethod named by the WELCOME)
+    from ..core.tiny import Tiny, Sym, TinyRaise
+    seen = []
+
+    def mk(name):
+        def on_welcome(*a):
+            seen.append((name, a))
+            return Sym(f"verdict-of-{name}")
+        return Sym(f"{name}-authenticator", methods={"on_welcome": on_welcome})
+    cells = {}
+    try:
+        for names in ((), ("scram",), ("anonymous",), ("anonymous", "scram")):
+            for am in (None, "scram", "anonymous", "ticket"):
+                auths = {n: mk(n) for n in names} if names else None
+                sess, extra = Sym("session"), Sym("authextra")
+                env = {"self": sess, shim.params()[1]: Sym("welcome", authmethod=am, authextra=extra), "self._authenticators": auths}
+                del seen[:]
+                t = Tiny(env, default_call=lambda f_, a_, k_=None: Sym(f"<{f_}>"))
+                try:
+                    r = t.run([x for x in shim.node.body if not (isinstance(x, ast.Expr) and isinstance(x.value, ast.Constant))])
+                except TinyRaise as ex:
+                    r = ("raise", str(ex))
+                who = seen[-1][0] if seen else None
+                args_ok = bool(seen) and len(seen[-1][1]) == 2 and seen[-1][1][0] is sess and seen[-1][1][1] is extra
+                if r[0] == "raise":
+                    cells[(names, am)] = ("raise",)
+                elif r[0] in ("return", "fall") and (r[0] == "fall" or r[1] is None):
+                    cells[(names, am)] = ("accept-without-verdict",)
+                elif r[0] == "return" and isinstance(r[1], Sym) and who and repr(r[1]) == repr(Sym(f"verdict-of-{who}")):
+                    cells[(names, am)] = ("verdict", who, args_ok)
+                else:
+                    cells[(names, am)] = ("other", repr(r))
+    except AnalysisError as ex:
+        raise AnalysisError(f"[C19.5-mutual-auth-gate] _SessionShim.onWelcome outside the modelled subset: {ex}")
+    bad = [f"authenticators {list(n)}, WELCOME authmethod {am!r}: {c}" for (n, am), c in cells.items() if n and am in n and c != ("verdict", am, True)]
+    ctx.ob("the session returns the verdict of the authenticator selected by the WELCOME's authmethod, given (session, authextra) [5 cells]", not bad, "; ".join(bad[:2]), shim.loc())
+    bad = [f"authenticators {list(n)}, WELCOME authmethod {am!r}: {c}" for (n, am), c in cells.items() if n and am is not None and am not in n and c != ("raise",)]
+    ctx.ob("a WELCOME naming an authmethod the client did not configure raises (and is aborted) [7 cells]", not bad, "; ".join(bad[:2]), shim.loc())
+    bad = [f"WELCOME authmethod {am!r}: {c}" for (n, am), c in cells.items() if not n and c != ("accept-without-verdict",)]
+    ctx.ob("a session without authenticators needs no verdict [4 cells]", not bad, "; ".join(bad[:2]), shim.loc())
+    c = cells[(("scram",), None)]
+    ctx.ob("a session whose only authenticator is WAMP-SCRAM does not accept a WELCOME that names no authmethod (it carries no server signature)",
+           c == ("raise",) or (c[0] == "verdict"), "WELCOME without authmethod is accepted without any authenticator's verdict: a router (or a man in the middle) "
+           "that skips CHALLENGE and omits `authmethod` is joined although 'anonymous' was not offered", shim.loc())
 
 
 def run(ctx):
@@ -590,4 +624,4 @@ def run(ctx):
     ctx.floor("C19.2-wampcra-formulas", 5)
     ctx.floor("C19.3-totp-formula", 2)
     ctx.floor("C19.4-cryptosign-formula", 10)
-    ctx.floor("C19.5-mutual-auth-gate", 7)
+    ctx.floor("C19.5-mutual-auth-gate", 10)
